@@ -181,6 +181,45 @@ fn cone_case(ctx: &mut Ctx, rng: &mut Rng, idx: usize) {
     }
 }
 
+/// windowed computation through the public symmetric builder (`set_h_range`): inside the window the involutive
+/// homology must be that of the full complex (which the cone oracle judges separately)
+fn window_case(ctx: &mut Ctx, rng: &mut Rng, idx: usize) {
+    let name = NAMES[idx % NAMES.len()];
+    let mut code = code_of(name);
+    if code.len() > ctx.by_tier(7, 8) { return }
+    if rng.chance(1, 2) { rng.shuffle(&mut code) }
+    let mirror = rng.chance(1, 2);
+    let (h, t) = *rng.choose(&[(0i64, 0i64), (1, 0), (0, 1)]);
+    let reduced = t == 0 && rng.chance(1, 2);
+    let n = code.len() as isize;
+    // the underlying Kh complex lives in [-n, n]; windows of width >= 4 somewhere in it (KhI[i] needs CKh[i-2..=i+1])
+    let lo = rng.range(-(n as i64) - 1, (n as i64) - 3) as isize;
+    let hi = rng.range((lo + 3) as i64, (n as i64) + 1) as isize;
+    let conf = json!({"knot": name, "mirror": mirror, "h": h, "t": t, "reduced": reduced, "code": code, "h_range": [lo, hi]});
+    let code2 = code.clone();
+    let res = guarded(move || {
+        let l = inv_from(&code2, mirror);
+        let (hh, tt) = (FF2::from_i(h), FF2::from_i(t));
+        let full = KhIHomology::from(&KhIComplex::<FF2>::new(&l, &hh, &tt, reduced));
+        let mut b = SymTngBuilder::new(&l, &hh, &tt, reduced);
+        if !(lo..=hi).contains(&0) { b.set_elements([]) } // canonical cycles live in degree 0
+        b.set_h_range(lo..=hi);
+        b.preprocess();
+        b.process_all();
+        b.finalize();
+        let win = b.into_khi_complex().truncated(lo + 1..=hi).homology();
+        let pick = |x: &KhIHomology<FF2>| -> Vec<(isize, usize)> { (lo + 2..=hi - 1).map(|i| (i, x[i].rank())).collect() };
+        (pick(&full), pick(&win))
+    });
+    match res {
+        Ok((full, win)) => {
+            if full != win { ctx.violation("C19/window", &format!("involutive homology computed with set_h_range({lo}..={hi}) is {:?} inside the window, the full complex gives {:?}", win, full), json!({"config": conf})); return }
+            ctx.ok("window", true, hash_of(&(&code, mirror, h, t, reduced, lo, hi)));
+        }
+        Err(e) => ctx.violation("C19/window-panic", &format!("windowed construction panicked: {}", e.brief()), json!({"config": conf})),
+    }
+}
+
 type P2 = Poly<'H', FF<2>>;
 
 fn poly_case(ctx: &mut Ctx, rng: &mut Rng, idx: usize) {
@@ -234,6 +273,7 @@ fn poly_case(ctx: &mut Ctx, rng: &mut Rng, idx: usize) {
 pub fn run(ctx: &mut Ctx) {
     let reps = ctx.by_tier(160u64, 8000);
     ctx.random_cases("cone", NAMES.len() as u64 * reps, |c, r| { let k = c.cur_idx() as usize; cone_case(c, r, k) });
+    ctx.random_cases("window", NAMES.len() as u64 * reps / 2, |c, r| { let k = c.cur_idx() as usize; window_case(c, r, k) });
     let reps2 = ctx.by_tier(80u64, 3200);
     ctx.random_cases("poly", NAMES.len() as u64 * reps2, |c, r| { let k = c.cur_idx() as usize; poly_case(c, r, k) });
     let _ = |x: &dyn Fn() -> bool| x();
